@@ -116,6 +116,6 @@ def _subterms(t):
         x = stack.pop()
         if isinstance(x, tuple):
             yield x
-            for y in x[1:]:
+            for y in (x[1:] if x and isinstance(x[0], str) else x):
                 if isinstance(y, tuple):
                     stack.append(y)
